@@ -798,6 +798,59 @@ class _Gen:
         return gen_targeted(rng, base=self.base, n_arr=self.n_arr)
 
 
+def real_suspender_probes(rng, n):
+    """Implementation-only probes with REAL suspender objects (bluesky.suspenders) installed on the real RunEngine,
+    reusing C31's harness and oracle: the suspender trips in the middle of a plan; for suspenders with hysteresis
+    (SuspendFloor / SuspendCeil with a separate resume threshold) a reading in the dead band arrives while the plan is
+    suspended and every gate of the plan is opened -- nothing may run until the condition is really released."""
+    import props.C31 as C31
+
+    out = []
+    tries = 0
+    while len(out) < n and tries < 20 * n:
+        tries += 1
+        case = C31.gen_case(rng, mode="mid-trip")
+        i = case["ops"][0][1]
+        sp = case["susp"][i]
+        dead = 3 if (sp["cls"] == "SuspendFloor" and sp.get("resume") == 5) else 1 if (sp["cls"] == "SuspendCeil" and sp.get("resume") == 0) else None
+        if dead is None and len(out) % 2 == 0:
+            continue      # every second probe has hysteresis
+        if dead is not None:
+            k = next(j for j, op in enumerate(case["ops"]) if op[0] == "put")
+            ins = [["put", i, dead]] + [["open", g] for g in range(case["nplan"])] + [["put", i, dead]]
+            case["ops"][k + 1:k + 1] = ins
+            case["_mode"] = "mid-trip-dead-band"
+            case["held_window"] = [k, k + len(ins)]     # ops k (the trip) .. k+len(ins): the condition is NOT released
+        case["probe"] = "real-suspender"
+        out.append(case)
+    return out
+
+
+def judge_real_suspender(case):
+    import props.C31 as C31
+
+    o = C31.run_impl(case)
+    bad = [("real-suspender:" + sig, what) for sig, what in C31.oracle(case, o)]
+    if case.get("held_window"):
+        lo, hi = case["held_window"]
+        cur = -1
+        tripped_seen = False
+        for e in o["log"]:
+            if e[0] == "op":
+                cur = e[1]
+            elif e[0] == "msg" and lo <= cur <= hi:
+                if e[1] == "_start_suspender":
+                    tripped_seen = True
+                elif e[1] == "_resume_from_suspender" or e[2] is not None:
+                    bad.append(("real-suspender:plan-resumed-while-condition-not-released",
+                                f"{case['susp'][case['ops'][0][1]]['cls']} tripped at op {lo}; at op {cur} ({case['ops'][cur]}, a reading in the dead band / an opened gate) "
+                                f"the engine executed {e[1]!r} although the suspender's resume condition had not been met"))
+                    break
+        if not tripped_seen and not bad:
+            bad.append(("real-suspender:did-not-trip", f"the suspender did not start a suspension at op {lo} ({case['ops'][lo]})"))
+    return bad
+
+
 def run(ctx, model=True):
     _install()
     extra = _extras(ctx)
@@ -813,6 +866,12 @@ def run(ctx, model=True):
     res = E.run_property(ctx, "C11", counted_oracle, gen=_Gen(), quick=50, thorough=2500, model=model, extra_scenarios=extra)
     for k, v in modes.items():
         res.count(k, v)
+    for case in real_suspender_probes(ctx.rng, ctx.budget(16, 300)):
+        res.seen(case, True)
+        res.count("impl-only-probe:real-suspender:" + case["_mode"])
+        for sig, what in judge_real_suspender(case):
+            res.violations.append(C.Violation(sig, "implementation-only probe (real suspender object, C31's harness): " + what, case))
+    res.notes.append("real suspender objects (incl. hysteresis / dead-band readings while suspended) are probed on the implementation with C31's harness and oracle")
     res.rule = ("scenario = clean or generic generated plan x fake-device modes x script with a suspension at an arrival index of _run (sweeps cover EVERY index of a plan), "
                 "pre/post plans, justification, release early / after held quiescence rounds / by default, second suspension sequential / nested / overlapping with the same "
                 "or another future, pause / abort during the suspension; placement is adaptive (the real engine is probed for the arrival index of the helper's wait_for); "
@@ -826,4 +885,11 @@ def run_impl_only(ctx):
 
 def replay(ctx, data):
     _install()
+    case = data.get("case") or {}
+    if case.get("probe") == "real-suspender":
+        res = C.Result()
+        res.seen(case, True)
+        for sig, what in judge_real_suspender(case):
+            res.violations.append(C.Violation(sig, what, case))
+        return res
     return E.replay_property(ctx, data, oracle)
